@@ -92,7 +92,7 @@ impl World {
         requires canonical(path@)
         ensures world_mutated_at(*old(self), *final(self), *fs, path@),
                 r is Ok ==> wh_fs(*r->Ok_0) == *fs && tc_create_file_ok(old(self).tree(*fs), path@, wh_dest(*r->Ok_0), wh_buf(*r->Ok_0), wh_pos(*r->Ok_0), final(self).tree(*fs)),
-                r is Err ==> final(self).tree(*fs) =~= old(self).tree(*fs),
+                r is Err ==> final(self).tree(*fs) =~= old(self).tree(*fs) && kind_neutral(r->Err_0),
                 World::reliable(*fs) ==> tcp_create_file(old(self).tree(*fs), path@, r is Ok),
     { unimplemented!() }
     #[verifier::external_body]
